@@ -67,6 +67,12 @@ def configs(tier, seed):
         for voc in (0, 1):
             out.append({"name": f"history-n3-order{oi}-voc{voc}", "n": 3, "deps": [[], [0], [0, 1]], "order": order, "voc": voc, "nested": bool(oi),
                         "updates": 2, "history": True, "nn_expr": True})
+    # life cycle: expressions assigned to *existing* Parameter objects (an expression re-defined; a plain parameter turned into an
+    # expression parameter) - afterwards every stage must follow the current expression, never the one from construction
+    for di, deps in enumerate(([[], [0], [0, 1]], [[], [], [0, 1]], [[], [0], [1]])):
+        for oi, order in enumerate(([0, 1, 2], [2, 1, 0], [1, 2, 0])):
+            out.append({"name": f"reassign-n3-dag{di}-order{oi}", "n": 3, "deps": deps, "order": order, "voc": (di + oi) % 3,
+                        "nested": (di + oi) % 2 == 0, "updates": 2, "reassign": True})
     if tier == "quick":
         # four parameters: the chain and the diamond in dependants-first, dependencies-first and two mixed declaration orders
         for di, deps in enumerate(([[], [0], [1], [2]], [[], [0], [0], [1, 2]], [[], [0], [0, 1], [1, 2]])):
@@ -85,11 +91,11 @@ def _label(cfg, i):
     return (NAMES_NESTED if cfg["nested"] else NAMES_FLAT)[i]
 
 
-def expression(cfg, i):
+def expression(cfg, i, voc=None):
     """Expression text of node i and a function computing it from dependency values (spec side)."""
     deps = cfg["deps"][i]
     refs = [f"${_label(cfg, j)}" for j in deps]
-    voc = cfg["voc"]
+    voc = cfg["voc"] if voc is None else voc
     if voc == 0:
         text = " + ".join(f"{k + 2} * {r}" for k, r in enumerate(refs)) + " + 1"
         fn = lambda vals, ops: sum((k + 2) * v for k, v in enumerate(vals)) + 1  # noqa: E731
@@ -108,15 +114,30 @@ def build(cfg, value_of):
     from glotaran.parameter import Parameters
 
     params = {}
+    redefine = []
     for i in cfg["order"]:
         lab = _label(cfg, i)
-        if cfg["deps"][i]:
+        if cfg["deps"][i] and cfg.get("reassign") and i % 2 == 1:
+            # life cycle "re-defined": the parameter starts with another expression (other vocabulary) ...
+            params[lab] = Parameter(label=lab, expression=expression(cfg, i, (cfg["voc"] + 1) % 3)[0])
+            redefine.append(i)
+        elif cfg["deps"][i] and cfg.get("reassign"):
+            # ... or as a plain, free parameter that is turned into an expression parameter afterwards
+            params[lab] = Parameter(label=lab, value=0.75)
+            redefine.append(i)
+        elif cfg["deps"][i]:
             params[lab] = Parameter(label=lab, expression=expression(cfg, i)[0], non_negative=bool(cfg.get("nn_expr")))
         else:
             p = Parameter(label=lab, value=1.0)
             p.value = value_of(i)
             params[lab] = p
-    return Parameters(params)
+    ps = Parameters(params)
+    for i in redefine:
+        # plain attribute assignment on the existing object (tweaking a loaded parameter set), then the documented update call
+        ps.get(_label(cfg, i)).expression = expression(cfg, i)[0]
+    if redefine:
+        ps.update_parameter_expression()
+    return ps
 
 
 def spec_values(cfg, plain, ops):
